@@ -10,6 +10,8 @@ CONSTANTS
   MaxParties = 2
   HistLen = 2
   JwsEmbeds = {TRUE}
+  PayClasses = {"pattern"}
+  KeyVars = {"plain"}
   Deviation = "open-consumes-object"
 INVARIANTS HistoryFree
 CHECK_DEADLOCK FALSE
